@@ -125,6 +125,12 @@ func (its *PushPullHandler) validatePushPullPack() errors.OrdaError {
 
 func (its *PushPullHandler) initialize(retCh chan *model.PushPullPack) errors.OrdaError {
 	its.retCh = retCh
+	if its.gotPushPullPack.CheckPoint == nil {
+		// a pack without a checkpoint cannot be served; it is answered like any other refused pack
+		its.gotPushPullPack.CheckPoint = model.NewCheckPoint()
+		its.resPushPullPack = its.gotPushPullPack.GetResponsePushPullPack()
+		return errors.PushPullAbortionOfClient.New(its.ctx.L(), "push-pull pack without a checkpoint")
+	}
 	its.resPushPullPack = its.gotPushPullPack.GetResponsePushPullPack()
 	its.resPushPullPack.Option = uint32(model.PushPullBitNormal)
 
